@@ -243,7 +243,9 @@ def run(ctx):
     from spectrum import aryule, lpc, pyule
     rng = ctx.rng
     ctx.check_theorems('Properties/C12.v')
-    loopir_tie(ctx, ['LEVINSON', 'CORRELATION'])      # IR programs regenerated from the source vs the hand models: exact, zero tolerance
+    # IR programs regenerated from the source vs the hand models: exact, zero tolerance.  aryule and ma are translated WITH their callees
+    # (CORRELATION, LEVINSON, aryule: other modules of the package, resolved through the imports) and compared with Model.Yule.aryule / Model.MaEst.ma_est
+    loopir_tie(ctx, ['LEVINSON', 'CORRELATION', 'aryule', 'ma'])
     # ---------------- correspondence: aryule (+ pyule attributes)
     cases = []; meta = []
     n = ctx.q(220, 2500); tries = 0
